@@ -1,13 +1,20 @@
 // C18 — layout inside code tags is insignificant: whitespace, comments, tag splitting.
+//
+// Widened twice. Modes 1 and 2 of relayout are frozen (committed replay files record their decision sequences); everything
+// added by the second pass lives in mode 3 ("wide"), in the source-level programs, in sgen and in the phases E3 / E4.
 package c18
 
 import (
+	"bytes"
 	"encoding/json"
 	"fmt"
+	"os"
+	"os/exec"
 	"regexp"
 	"sort"
 	"strings"
 	"testing"
+	"time"
 
 	"verif/internal/match"
 	"verif/internal/model"
@@ -28,6 +35,7 @@ type chunk struct {
 	opener string   // "<%" or "<%=" or "<%#"
 	toks   []string // tokens of a code tag; "\n" marks a statement boundary of the compact printer
 	body   string   // comment body
+	open   bool     // the template ends inside this tag: there is no %> (plush renders such a template)
 }
 
 // tokenize splits the code of one tag (as printed by model.Printer) into tokens.
@@ -143,15 +151,22 @@ func split(src string) ([]chunk, error) {
 				opener = "<%="
 			}
 			e := tagEnd(src, o+len(opener))
+			open := false
 			if e < 0 {
-				return nil, fmt.Errorf("unterminated tag")
+				if !openFinalTag {
+					return nil, fmt.Errorf("unterminated tag")
+				}
+				e, open = len(src), true
 			}
 			toks, err := tokenize(src[o+len(opener) : e])
 			if err != nil {
 				return nil, err
 			}
-			out = append(out, chunk{tag: true, opener: opener, toks: toks})
+			out = append(out, chunk{tag: true, opener: opener, toks: toks, open: open})
 			pos = e + 2
+			if open {
+				pos = e
+			}
 		}
 	}
 	if pos < len(src) {
@@ -197,6 +212,24 @@ func (r *recorder) pick(label string, n int) int {
 
 var seps = []string{" ", "  ", "\t", "\n", "\r\n", " \n\t", " # a comment\n", "\n# note: 100% of x > y\n", " # this %> does not end the tag, nor does <% open one\n", " # first\n # second\n", "\n# one\n\n\t# two\r\n# three\n", " "}
 
+// wideSeps (mode 3): seps plus an empty line comment, line comments glued to the token before them, line comments holding
+// an unbalanced quote or back-quote, a comment ended by CRLF, blank lines.
+var wideSeps = append(append([]string(nil), seps...),
+	"#\n", " #\n", "# glued to the token before it\n", " # don't \"quote\n", " # a `tick\n", " #\r\n", "\n\n\n", "\t#c\n#\n", "\r\n\r\n", " # 'x' \"y\" `z` %> <%= 1 %>\n",
+	" # caf\u00e9 \u6f22\u5b57 \xff\n", " # ends in a backslash \\\n", " # holds <%# a comment opener %>\n")
+
+// heads (mode 3): what stands between the opener and the first token; tails: between the last token and %>.
+var heads = []string{" ", "", "\t", "\n", "\r\n", " \n  ", " # head\n", "\n# head: let x = 1 %> <%\n", "  ", ""}
+var tails = []string{" ", "", "\t", "\n", "\r\n", " # tail\n", "\n#\n", "\n # tail: %> <%= x\n\t", "# glued tail\n", ""}
+
+// wideComments (mode 3): comment tags whose body begins with a character that means something in code.
+var wideComments = append(append([]string(nil), commentTags...),
+	"<%##%>", "<%#=1%>", "<%#\"%>", "<%#`%>", "<%# 100%%>", "<%#<% x %>", "<%# } %>", "<%# let a = 1\n a = 2 %>", "<%#\r\n%>", "<%#%%>", "<%# else { %>")
+
+// emptyTags (mode 3): a tag holding no statement - the degenerate piece of a cut (the run of zero statements), also with
+// nothing but white space or line comments in it. Switch off by emptying the slice.
+var emptyTags = []string{"<% %>", "<%%>", "<%\n%>", "<% # only a comment\n%>", "<%\t\r\n%>", "<%\n#\n# two\n%>"}
+
 const opChars = "=!<>&|~+*/"
 
 // glueOps: operators may stand directly next to their operands (no white space). Off only for replaying cases
@@ -224,38 +257,91 @@ func sep(ch chooser, a, b string, mode int) string {
 	if mode == 0 {
 		return " "
 	}
-	n := len(seps)
+	list := seps
+	if mode >= 3 {
+		list = wideSeps
+	}
+	n := len(list)
 	k := ch.pick("sep", n+2)
 	if k >= n {
 		// no separator at all, where no two tokens can fuse
 		if isPunct(a) || isPunct(b) {
-			if !(a == "{" && b == "}") {
+			if !(a == "{" && b == "}") || mode >= 3 {
 				return ""
 			}
+		}
+		if mode >= 3 && (isStr(a) != isStr(b)) {
+			return "" // let a="x", return"x", "x"+y: a quoted literal cannot fuse with its neighbour
 		}
 		if glueOps && (isOp(a) || isOp(b)) && a != "" && b != "" && !(strings.ContainsAny(a[len(a)-1:], opChars) && strings.ContainsAny(b[:1], opChars)) {
 			return "" // 1+2, a==b, x=!y: an operator next to an operand (two operator characters in a row could spell another operator)
 		}
 		return " "
 	}
-	return seps[k]
+	return list[k]
 }
+
+func isStr(tok string) bool { return tok != "" && (tok[0] == '"' || tok[0] == '`') }
 
 // relayout prints the chunks again under the chosen mode.
 //
 //	mode 0: canonical (identity up to single spaces)
 //	mode 1: random separators between tokens (spaces, tabs, newlines, CRLF, # line comments, none)
 //	mode 2: + comment tags between chunks, + merging of adjacent silent tags, + cutting at statement boundaries, + ';'
+//	mode 3: mode 2 with the wide pools: separators after the opener and before the closer (none, white space, line
+//	        comments), empty and glued line comments, quotes in comments, '{}' and quoted literals glued to their
+//	        neighbours, a statement boundary spelled as a blank, a tab or any separator instead of a newline, several
+//	        comment tags in a row, comment tags and empty tags before text, inside text and at the very end
+//
+// The decision sequence of modes 1 and 2 is frozen (committed replay files record it).
 func relayout(chs []chunk, ch chooser, mode int) string {
 	var sb strings.Builder
+	wide := mode >= 3
 	// a statement that begins with ( [ or { is never joined to the preceding tag: after an expression those tokens
 	// continue it (call, index, helper block), so joining changes the grammar, not just the layout
 	startsStmt := func(tok string) bool { return tok != "(" && tok != "[" && tok != "{" && tok != "\n" }
+	// filler: comment tags / empty tags that may stand anywhere between two chunks (wide only)
+	filler := func() {
+		switch ch.pick("filler", 10) {
+		case 0:
+			sb.WriteString(wideComments[ch.pick("which-comment", len(wideComments))])
+		case 1:
+			for n := 2 + ch.pick("comments-in-a-row", 2); n > 0; n-- {
+				sb.WriteString(wideComments[ch.pick("which-comment", len(wideComments))])
+			}
+		case 2:
+			if len(emptyTags) > 0 {
+				sb.WriteString(emptyTags[ch.pick("which-empty", len(emptyTags))])
+			}
+		}
+	}
+	appetite := 0
+	if wide {
+		appetite = ch.pick("merge-appetite", 3)
+	}
 	i := 0
 	for i < len(chs) {
 		c := chs[i]
+		if wide {
+			filler()
+		}
 		if !c.tag {
-			sb.WriteString(c.text)
+			t := c.text
+			if wide && len(t) >= 2 && ch.pick("split-text", 4) == 0 {
+				// a comment tag (or an empty tag) in the middle of literal text; never next to a character that could
+				// form a tag opener or an escape with what follows
+				p := 1 + ch.pick("split-at", len(t)-1)
+				if !strings.ContainsAny(t[p-1:p+1], "\\<%>") {
+					sb.WriteString(t[:p])
+					if k := ch.pick("split-with", len(wideComments)+len(emptyTags)); k < len(wideComments) {
+						sb.WriteString(wideComments[k])
+					} else {
+						sb.WriteString(emptyTags[k-len(wideComments)])
+					}
+					t = t[p:]
+				}
+			}
+			sb.WriteString(t)
 			i++
 			continue
 		}
@@ -264,7 +350,7 @@ func relayout(chs []chunk, ch chooser, mode int) string {
 			i++
 			continue
 		}
-		if mode >= 2 && ch.pick("comment-tag-before", 6) == 0 {
+		if mode == 2 && ch.pick("comment-tag-before", 6) == 0 {
 			sb.WriteString(commentTags[ch.pick("which-comment", len(commentTags))])
 		}
 		// collect a run of tags that may be merged into this one
@@ -278,14 +364,33 @@ func relayout(chs []chunk, ch chooser, mode int) string {
 			if !startsStmt(chs[j].toks[0]) {
 				break
 			}
-			if ch.pick("merge", 3) != 0 {
+			if wide {
+				if ch.pick("merge", 3) > appetite { // appetite 2: every adjacent tag that can be joined is joined
+					break
+				}
+			} else if ch.pick("merge", 3) != 0 {
 				break
 			}
 			toks = append(append(toks, "\n"), chs[j].toks...)
 			j++
 		}
 		sb.WriteString(c.opener)
-		sb.WriteString(" ")
+		atOpener := true // nothing written since the opener: a '#' here would spell the comment opener <%#
+		put := func(s string) {
+			if s == "" {
+				return
+			}
+			if atOpener && (s[0] == '#' || s[0] == '=') {
+				sb.WriteString(" ")
+			}
+			sb.WriteString(s)
+			atOpener = false
+		}
+		if wide {
+			put(heads[ch.pick("head-sep", len(heads))])
+		} else {
+			put(" ")
+		}
 		prev := ""
 		for k, t := range toks {
 			if t == "\n" {
@@ -295,36 +400,74 @@ func relayout(chs []chunk, ch chooser, mode int) string {
 					next = toks[k+1]
 				}
 				choice := 0
-				if mode >= 2 {
+				if wide {
+					choice = ch.pick("boundary", 8)
+				} else if mode >= 2 {
 					choice = ch.pick("boundary", 4)
 				}
 				switch {
 				case choice == 1 && prev != "{" && prev != "" && next != "}" && next != "" && next != "else" && prev != "}" && prev != ";":
-					sb.WriteString(";")
+					put(";")
 					prev = ";"
 				case choice == 2 && next != "" && startsStmt(next):
-					sb.WriteString(" %><% ")
+					if wide {
+						put(tails[ch.pick("tail-sep", len(tails))])
+						sb.WriteString("%><%")
+						atOpener = true
+						put(heads[ch.pick("head-sep", len(heads))])
+					} else {
+						put(" %><% ")
+					}
+					prev = ""
+				case choice == 4 && prev != "":
+					put(" ") // two statements on one line
+				case choice == 5 && prev != "":
+					put("\t")
+				case choice == 6 && prev != "":
+					s := wideSeps[ch.pick("boundary-sep", len(wideSeps))]
+					put(s)
+				case choice == 7 && next != "" && startsStmt(next) && prev != "":
+					// a cut with comment tags (and empty tags) between the two pieces
+					put(" %>")
+					for n := 1 + ch.pick("comments-in-a-row", 2); n > 0; n-- {
+						sb.WriteString(wideComments[ch.pick("which-comment", len(wideComments))])
+					}
+					if len(emptyTags) > 0 && ch.pick("empty-too", 3) == 0 {
+						sb.WriteString(emptyTags[ch.pick("which-empty", len(emptyTags))])
+					}
+					sb.WriteString("<%")
+					atOpener = true
+					put(" ")
 					prev = ""
 				default:
-					sb.WriteString("\n")
+					put("\n")
 				}
 				continue
 			}
 			if prev != "" && prev != ";" {
-				sb.WriteString(sep(ch, prev, t, mode))
+				put(sep(ch, prev, t, mode))
 			} else if prev == ";" {
-				sb.WriteString(" ")
+				put(" ")
 			}
-			sb.WriteString(t)
+			put(t)
 			prev = t
 		}
-		if mode >= 1 {
-			sb.WriteString(seps[ch.pick("tail-sep", 6)]) // white space before %> (never a line comment: it would swallow the %>)
-		} else {
-			sb.WriteString(" ")
+		switch {
+		case wide:
+			put(tails[ch.pick("tail-sep", len(tails))])
+		case mode >= 1:
+			put(seps[ch.pick("tail-sep", 6)]) // white space before %> (never a line comment: it would swallow the %>)
+		default:
+			put(" ")
+		}
+		if j == len(chs) && chs[j-1].open {
+			return sb.String() // the input ends inside the last tag
 		}
 		sb.WriteString("%>")
 		i = j
+	}
+	if wide {
+		filler()
 	}
 	return sb.String()
 }
@@ -425,6 +568,9 @@ func run(r *vk.Run, prog []model.Node, partials map[string][]model.Node, compact
 	}
 	// and the canonical form agrees with the reference interpreter
 	want := model.RunWith(prog, progs.Data(), progs.Helpers(nil), partials)
+	if want.Unspec == "" && want.Err == "" {
+		r.Class(strings.SplitN(class, "/", 2)[0] + "/reference-defined")
+	}
 	if want.Unspec == "" && want.Err == "" && !match.SameText(want.Out, base.Out) {
 		return fail("canonical renders %q, the reference interpreter says %q", base.Out, want.Out)
 	}
@@ -445,13 +591,16 @@ func runSrc(r *vk.Run, canon string, mode int, ch chooser, class string) *vk.Fai
 	c.Picks = rec.log
 	render := func(src string) vk.Res {
 		return vk.Safe(func() (string, error) {
-			return plush.Render(src, progs.Context(progs.Data(), progs.Helpers(nil), nil))
+			return plush.Render(src, srcContext())
 		})
 	}
 	base, got := render(canon), render(variant)
 	nt := ""
 	if variant != canon {
 		nt = variant
+	}
+	if base.Err != nil {
+		class += "/canonical-error" // every source-level program is written to render: 0 of these on a correct tree
 	}
 	r.Count(nt, class)
 	if nt != "" {
@@ -481,11 +630,162 @@ func runSrc(r *vk.Run, canon string, mode int, ch chooser, class string) *vk.Fai
 }
 
 // sourcePrograms: canonical texts with spellings the printer does not produce. Each renders without error.
+// Inside a tag a newline separates two statements (the tokenizer reports it as a boundary); no statement begins with
+// ( [ or { and no '-' or '.' is written next to a letter or digit unless it belongs to the name / path / number.
 var sourcePrograms = []string{
 	`<%= .5 + 1.0 %>|<%= 1.5 + .5 %>|<%= 2.0 * .25 %>|<% let a = .5 %><%= a * 2.0 %>|<%= if (.5 < 1.5) { %>y<% } %>`,
 	`<%= [.5, .25, 1] %>|<%= [.5] %>|<%= len([.5, .5]) %>|<%= {a: .5}["a"] %>|<% let f = fn(x) { return x + .5 } %><%= f(.5) %>`,
 	`<%= 1 + 2 * 3 %>|<%= (1 + 2) * 3 %>|<%= 7 / 2 %>|<%= 1 < 2 && 2 <= 3 || !false %>|<%= "a" + "b" == "ab" %>|<%= "abc" ~= "b" %>`,
 	`<% let x = 1 %><% x = x + 1 %><%= x != 2 %>|<%= x >= 2 %>|<%= !x %>|<%= x == 2 && !false %>|<%= 10 / 2 * 3 %>`,
+	// --- added by the second widening pass (mode 3 runs over all of them, modes 1 and 2 as well) ---
+	// if / else-if / else chains with further statements after each closing brace, all in one tag
+	"<% let a = 0\nif (f) {\na = 1\n} else if (t) {\na = 2\n} else {\na = 3\n}\nlet b = a + 1\nif (t) {\nb = b * 2\n}\nb = b + 1\nif (f) {\nb = 0\n} else {\nb = b + 10\n}\nlet c = b %><%= a %>|<%= b %>|<%= c %>",
+	// for over a call (the call takes the block), continue / break, statements after the loop's brace
+	"<% let n = 0\nfor (x) in id(arr) {\nif (x == 20) {\ncontinue\n}\nn = n + x\n}\nlet after = 1 %><%= n %>|<%= after %>|<%= for (k, v) in id(words) {\nif (k == 1) {\nbreak\n}\nlet w = v + \"!\" %><%= w %>,<% }\nlet done = \"d\" %><%= done %>",
+	// functions: early return, statements after an inner brace, a function after a function, functions as arguments
+	"<% let f = fn(x) {\nif (x > 2) {\nreturn \"big\"\n}\nlet y = x * 2\nreturn y\n}\nlet g = fn(h, v) {\nreturn h(v)\n}\nlet r1 = f(1)\nlet r2 = g(f, 5) %><%= r1 %>|<%= r2 %>|<%= g(fn(z) {\nreturn z + 1\n}, 1) %>|<% let e = fn() {} %><%= e() %>",
+	// member access after a call or an index: the '.' may be separated from what precedes it
+	`<%= id(obj).Name %>|<%= id(obj).L[1] %>|<%= obj.L[0] + arr[1] %>|<%= [obj][0].Name %>|<%= id(id(obj)).Name %>|<%= obj.Name + obj.Name %>`,
+	// strings holding comment signs, tag delimiters, quotes and line breaks
+	"<%= `back\n# tick %> \"q\" <%= 1 ` %>|<%= \"esc \\\" # %> <% \" %>|<% let s = \"x\" %><%= s + \"y\" == \"xy\" %>|<%= \"it's\" ~= \"t\" %>|<%= `a` + \"b\" + `c` %>",
+	// hash and array literals over several lines, nested, assigned through an index
+	"<% let h = {a: 1, b: \"two\", c: [1, 2, 3]}\nlet l = [1, [2, 3], {k: \"v\"}]\nh[\"a\"] = 5\nl[0] = 9 %><%= h[\"a\"] %>|<%= h[\"c\"][2] %>|<%= l[0] %>|<%= l[1][1] %>|<%= l[2][\"k\"] %>|<%= len(l) %>|<%= {} %>|<%= [] %>",
+	// a helper block, contentFor: statements after their closing braces
+	"<%= blk() { %>x<%= i1 %>y<% }\nlet q = 2 %><%= q %><% contentFor(\"c\") { %>held<%= q %><% }\nlet r = 3 %><%= contentOf(\"c\") %><%= r %>",
+	// numbers with a trailing dot, subtraction, division
+	`<%= 1. + .5 %>|<%= 2.5 * 2.0 %>|<%= 1.0 / 4.0 %>|<%= 1 - 2 %>|<%= (1 - 2) * 3 %>|<%= i7 - i2 - i1 %>|<%= [1 - 1, 2][0] %>|<%= id(3) - id(1) %>`,
+	// prefix operators, if as an expression with return, empty blocks
+	"<%= !t %>|<%= !(t && f) %>|<%= !!t %>|<%= if (i1 == 1) { %>one<% } else if (i1 == 2) { %>two<% } else { %>other<% } %>|<%= if (f) {\nreturn \"x\"\n} else {\nreturn \"y\"\n} %>|<% if (t) {} else {} %><% for (x) in two {} %>ok",
+	// loops in loops in one tag, break and continue at both levels, statements after every brace
+	"<% let acc = \"\"\nfor (a) in two {\nfor (b) in two {\nif (a == b) {\ncontinue\n}\nacc = acc + \"x\"\n}\nif (a == 2) {\nbreak\n}\nlet z = a\n}\nlet fin = 1 %><%= acc %>|<%= fin %>|<%= for (a) in two { %><%= for (b) in two { %><%= a * b %>,<% }\nlet m = a %>;<%= m %><% }\nlet last = 7 %><%= last %>",
+	// blocks nested eight deep in one tag, all closed at once; statements after the run of braces
+	"<% let d = 0\nif (t) {\nif (t) {\nfor (x) in two {\nif (t) {\nif (!f) {\nfor (y) in two {\nif (t) {\nif (t) {\nd = d + 1\n}\n}\n}\n}\n}\n}\n}\n}\nlet after = d %><%= after %>|<%= if (t) { %><%= if (t) { %><%= for (x) in two { %><%= if (t) { %><%= if (t) { %><%= x %><% }\n}\n}\n}\n}\nlet z = 5 %><%= z %>",
+	// text with line breaks around the tags: a comment tag or an empty tag set before it takes nothing away
+	"line one\n<% let a = 1 %>\n<%= a %>\n\n<% if (t) { %>\n  yes\n<% } %>\n\tend\r\nlast\n",
+	// comment tags already present, tags holding nothing, text around everything
+	"head <%# first %><% let a = 1 %> mid <%# second %><%# third %><%= a %><% %> tail<%#%>",
+}
+
+// openFinalTag: templates whose last tag has no %> (the input ends inside it). plush renders them, so the tokens of that
+// tag are tokens of a code tag like any other. Switch off to leave such templates out.
+var openFinalTag = true
+
+// openPrograms: source-level programs that end inside their last tag, written with one blank before the end of input.
+var openPrograms = []string{
+	`<%= id(i7) `,
+	`<%= arr[1] `,
+	`x<% let a = 1 %><%= a + id(i2) `,
+	`<%= [i1, i2] `,
+	`<%= len(arr) + arr[0] `,
+	`<% let a = [1, 2] %><%= a[0] %>|<%= id(a)[1] `,
+	`a<% if (t) { %>b<% } %>c<% let z = id(1) `,
+	`<%= id("s") `,
+	`<%= i7 `,
+	`<%= i1 + 2 `,
+}
+
+// srcData: the data of the source-level programs: the shared data plus a struct with fields.
+type srcObj struct {
+	Name string
+	L    []int
+}
+
+func srcContext() *plush.Context {
+	ctx := progs.Context(progs.Data(), progs.Helpers(nil), nil)
+	ctx.Set("obj", srcObj{Name: "bob", L: []int{4, 5}})
+	return ctx
+}
+
+// ---- very long runs of one separator (the boundary "maximum") ------------------------------------------------
+
+// LongCase: N copies of one separator between two tokens. Rendered in a child process, because what it looks for - a
+// stack that grows with the length of the run - ends in a fatal error that no recover() catches.
+type LongCase struct {
+	Sep string `json:"sep"`
+	N   int    `json:"n"`
+}
+
+// longRuns: switch for the phase E4.
+var longRuns = true
+
+const longCanon = "<% let a = i1 %><%= a + i2 %>"
+
+func longVariant(c LongCase) string {
+	return "<% let a = i1 " + strings.Repeat(c.Sep, c.N) + "%><%= a " + strings.Repeat(c.Sep, c.N/2) + "+ i2 %>"
+}
+
+const longEnv = "VERIF_C18_LONG"
+
+// TestLongChild is the child side: it renders one long variant and prints the result.
+func TestLongChild(t *testing.T) {
+	spec := os.Getenv(longEnv)
+	if spec == "" {
+		t.Skip("child side of the long-run phase")
+	}
+	var c LongCase
+	if err := json.Unmarshal([]byte(spec), &c); err != nil {
+		fmt.Printf("LONG-BAD %v\n", err)
+		os.Exit(0)
+	}
+	res := vk.Safe(func() (string, error) {
+		return plush.Render(longVariant(c), progs.Context(progs.Data(), progs.Helpers(nil), nil))
+	})
+	b, _ := json.Marshal(map[string]string{"out": res.Out, "err": norm(res.Err), "panic": fmt.Sprint(res.Panic)})
+	fmt.Printf("LONG %s\n", b)
+	os.Exit(0)
+}
+
+func runLong(r *vk.Run, c LongCase, class string) *vk.Fail {
+	r.Count(fmt.Sprintf("%q x %d", c.Sep, c.N), class)
+	fail := func(f string, a ...interface{}) *vk.Fail {
+		return &vk.Fail{Kind: "long", Case: c, Msg: fmt.Sprintf("canonical %q, variant: the same with %d x %q after 'i1' and %d x %q after 'a': ", longCanon, c.N, c.Sep, c.N/2, c.Sep) + fmt.Sprintf(f, a...)}
+	}
+	base := vk.Safe(func() (string, error) {
+		return plush.Render(longCanon, progs.Context(progs.Data(), progs.Helpers(nil), nil))
+	})
+	spec, _ := json.Marshal(c)
+	cmd := exec.Command(os.Args[0], "-test.run", "^TestLongChild$", "-test.timeout", "0")
+	cmd.Env = append(os.Environ(), longEnv+"="+string(spec), "VERIF_REPLAY_CHILD=1")
+	var stdout, stderr bytes.Buffer
+	cmd.Stdout, cmd.Stderr = &stdout, &stderr
+	if err := cmd.Start(); err != nil {
+		return &vk.Fail{Kind: "decode", Msg: "cannot start the child: " + err.Error()}
+	}
+	done := make(chan error, 1)
+	go func() { done <- cmd.Wait() }()
+	select {
+	case <-done:
+	case <-time.After(10 * time.Minute): // safety net only; the verdict below never depends on the wall clock
+		cmd.Process.Kill()
+		<-done
+		fmt.Printf("INCONCLUSIVE: the long-run child did not finish within 10 minutes (%q x %d)\n", c.Sep, c.N)
+		r.Finish()
+		os.Exit(2)
+	}
+	for _, l := range strings.Split(stdout.String(), "\n") {
+		if strings.HasPrefix(l, "LONG ") {
+			var got map[string]string
+			if err := json.Unmarshal([]byte(l[5:]), &got); err != nil {
+				return &vk.Fail{Kind: "decode", Msg: "child answered " + l}
+			}
+			if got["panic"] != "<nil>" {
+				return fail("panic: %s", got["panic"])
+			}
+			if got["err"] != norm(base.Err) || got["out"] != base.Out {
+				return fail("canonical gives %s, the variant gives output %q error %q", base, got["out"], got["err"])
+			}
+			return nil
+		}
+	}
+	// the child died
+	msg := "the child process died without an answer"
+	for _, l := range strings.Split(stderr.String()+"\n"+stdout.String(), "\n") {
+		if strings.HasPrefix(l, "fatal error: ") || strings.HasPrefix(l, "runtime: goroutine stack exceeds") {
+			msg = l
+			break
+		}
+	}
+	return fail("canonical gives %s, rendering the variant killed the process: %s", base, msg)
 }
 
 // ---- fixed programs for the exhaustive cutting sweep ----------------------------------------------------
@@ -503,6 +803,7 @@ func fixedPrograms() [][]model.Node {
 		return model.Code{S: model.ForS{For: &model.For{Val: val, Iter: it, Body: ns}}}
 	}
 	ret := func(e model.Expr) model.Node { return model.Code{S: model.ReturnS{X: e}} }
+	asg := func(n string, e model.Expr) model.Node { return model.Code{S: model.AssignS{Name: n, X: e}} }
 	return [][]model.Node{
 		// a run of silent statements: every way of cutting it into tags
 		{let("a", lit(1)), let("b", lit(2)), let("c", model.Bin{Op: "+", L: v("a"), R: v("b")}), model.Code{S: model.AssignS{Name: "a", X: lit(5)}}, let("d", lit("x")), emit(v("a")), emit(v("c")), emit(v("d"))},
@@ -515,15 +816,185 @@ func fixedPrograms() [][]model.Node {
 		{model.EmitIf{If: &model.If{Cond: v("t"), Then: []model.Node{let("z", lit(1)), let("w", lit(2)), emit(model.Bin{Op: "+", L: v("z"), R: v("w")})}, HasElse: true, Else: []model.Node{T("no")}}}},
 		{let("h", model.Hash{KVs: []model.KV{{K: "a", V: lit(1)}, {K: "b", V: lit("two")}}}), let("l", model.Arr{Els: []model.Expr{lit(1), lit(2), lit(3)}}), emit(model.Idx{X: v("h"), I: lit("b")}), emit(model.Idx{X: v("l"), I: lit(2)})},
 		{let("s", lit("a # not a comment")), let("u", lit("%> not an end <%")), emit(v("s")), emit(v("u"))},
+		// --- second widening pass: a statement directly after the closing brace of else, else-if, nested blocks, a loop
+		// over a call, a helper block, a function in a function ---
+		{let("a", lit(1)), model.Code{S: model.IfS{If: &model.If{Cond: v("f"), Then: []model.Node{asg("a", lit(2))}, HasElse: true, Else: []model.Node{asg("a", lit(3))}}}}, let("b", lit(4)), emit(v("a")), emit(v("b"))},
+		{let("a", lit(1)), model.Code{S: model.IfS{If: &model.If{Cond: v("f"), Then: []model.Node{asg("a", lit(2))}, ElseIfs: []model.ElseIf{{Cond: v("f"), Then: []model.Node{asg("a", lit(5))}}, {Cond: v("t"), Then: []model.Node{asg("a", lit(6))}}}}}}, let("b", lit(4)), emit(v("a")), emit(v("b"))},
+		{let("a", lit(1)), sif(v("t"), sif(v("t"), asg("a", lit(2))), asg("a", model.Bin{Op: "+", L: v("a"), R: lit(1)}), sif(v("f"), asg("a", lit(0)))), asg("a", model.Bin{Op: "*", L: v("a"), R: lit(10)}), emit(v("a"))},
+		{let("a", lit("")), sfor("x", model.Call{Fn: "id", Args: []model.Expr{v("two")}}, let("q", v("x"))), let("b", lit(3)), emit(v("b")), model.EmitFor{For: &model.For{Val: "x", Iter: model.Call{Fn: "id", Args: []model.Expr{v("two")}}, Body: []model.Node{let("y", v("x")), emit(v("y"))}}}, let("c", lit(4)), emit(v("c"))},
+		{model.EmitBlock{Helper: "blk", Body: []model.Node{T("x"), let("i", lit(1)), emit(v("i"))}}, let("q", lit(2)), emit(v("q"))},
+		{let("f", model.FnLit{Params: []string{"x"}, Body: []model.Node{let("g", model.FnLit{Params: []string{"y"}, Body: []model.Node{sif(model.Bin{Op: ">", L: v("y"), R: lit(1)}, ret(lit("big"))), let("w", v("y")), ret(v("w"))}}), let("r", model.Call{Fn: "g", Args: []model.Expr{v("x")}}), ret(v("r"))}}), let("b", model.Call{Fn: "f", Args: []model.Expr{lit(1)}}), let("c", model.Call{Fn: "f", Args: []model.Expr{lit(2)}}), emit(v("b")), emit(v("c"))},
+		{T("x\n"), let("a", lit(1)), T("\n"), emit(v("a")), T("\n\ny\n"), model.EmitIf{If: &model.If{Cond: v("t"), Then: []model.Node{T("\n in\n"), emit(v("a")), T("\n")}}}, T("\nz")},
+		{T("a"), model.EmitFor{For: &model.For{Key: "k", Val: "x", Iter: v("arr"), Body: []model.Node{sfor("y", v("two"), sif(model.Bin{Op: "==", L: v("y"), R: lit(1)}, model.Code{S: model.ContinueS{}}), let("u", v("y"))), sif(model.Bin{Op: "==", L: v("k"), R: lit(1)}, model.Code{S: model.BreakS{}}), let("z", v("x")), emit(v("z")), T(",")}}}, let("e", lit(9)), emit(v("e"))},
 	}
 }
 
-const rule = "programs: (E) 9 fixed programs (runs of silent statements; statements directly after the closing brace of if / for / function; loops with continue; hash and array literals; strings containing # and tag delimiters) x both printers (tag per statement, compact single-tag blocks) x 600 enumerated layout decision vectors each; (E2) 4 source-level programs written with spellings the printer never produces (numbers with a leading dot such as .5 in every operand position, operators) x 2 modes x 2000 (quick 200) decision vectors; (R) random programs over all constructs from the shared generator. Re-layouts: between any two tokens of a tag one of {space, two spaces, tab, newline, CRLF, mixed white space, '# comment' + newline, a line comment containing % and >, two and three line comments in a row, nothing where no two tokens can fuse: next to ( ) [ ] { } , : and between an operator and its operand}; comment tags (empty, quoted, multi-line, code-like) between tags at top level and inside blocks; merging of adjacent silent tags (and of a silent tag into a preceding tag that opens a block) ; cutting a tag at statement boundaries; ';' between statements; the same applied to partial texts. Oracle: the variant renders exactly what the canonical layout renders (same output, or the same error modulo 'line N:'), and the canonical layout agrees with the reference interpreter. Excluded by construction: no space next to '-' / '.' inside identifiers and numbers, statements beginning with ( [ or { are never joined to a previous tag (after an expression they continue it: call, index, helper block), a # line comment never directly follows '<%' and never precedes '%>' on the same line, top-level return. Non-trivial = the variant text differs from the canonical text; distinct by variant text."
+// ---- random programs of silent statements (the heart of "a statement after a closing brace in the same tag") -------
+
+// sgen draws programs made of silent statements only: let, assignment, if / else-if / else, for (over a name, a call, a
+// literal; with guarded break / continue), functions (in functions, with guarded early returns) defined and called, bare
+// calls; now and then a piece of text that forces the enclosing block into the tag-per-statement layout. Everything a
+// block binds is used inside that block only; the names bound at top level are emitted at the end.
+type sgen struct {
+	t   *rapid.T
+	seq int
+}
+
+func (g *sgen) name(p string) string { g.seq++; return fmt.Sprintf("%s%d", p, g.seq) }
+
+func (g *sgen) intExpr(vars []string, d int) model.Expr {
+	t := g.t
+	k := rapid.IntRange(0, 6).Draw(t, "ie")
+	switch {
+	case k <= 1 || (k <= 3 && len(vars) == 0):
+		return model.Lit{V: rapid.IntRange(0, 9).Draw(t, "lit")}
+	case k <= 3:
+		return model.Var{Name: rapid.SampledFrom(vars).Draw(t, "var")}
+	case k == 4 && d > 0:
+		return model.Bin{Op: rapid.SampledFrom([]string{"+", "+", "-"}).Draw(t, "op"), L: g.intExpr(vars, d-1), R: g.intExpr(vars, d-1)}
+	case k == 5 && d > 0:
+		return model.Call{Fn: "id", Args: []model.Expr{g.intExpr(vars, d-1)}}
+	case k == 6 && d > 0:
+		return model.Bin{Op: "*", L: g.intExpr(vars, d-1), R: model.Lit{V: rapid.IntRange(0, 3).Draw(t, "lit")}}
+	}
+	return model.Var{Name: rapid.SampledFrom([]string{"i1", "i2", "i7"}).Draw(t, "data")}
+}
+
+func (g *sgen) cond(vars []string) model.Expr {
+	t := g.t
+	switch rapid.IntRange(0, 5).Draw(t, "ck") {
+	case 0:
+		return model.Var{Name: "t"}
+	case 1:
+		return model.Var{Name: "f"}
+	case 2:
+		return model.Not{X: model.Var{Name: "f"}}
+	case 3:
+		return model.Bin{Op: rapid.SampledFrom([]string{"&&", "||"}).Draw(t, "op"), L: g.cond(nil), R: model.Var{Name: rapid.SampledFrom([]string{"t", "f"}).Draw(t, "b")}}
+	}
+	return model.Bin{Op: rapid.SampledFrom([]string{"<", "<=", ">", ">=", "==", "!="}).Draw(t, "op"), L: g.intExpr(vars, 1), R: model.Lit{V: rapid.IntRange(0, 9).Draw(t, "lit")}}
+}
+
+// block draws 1..4 statements. vars: the integer names visible (and assignable) here; new ones are returned.
+func (g *sgen) block(d int, vars []string, inLoop, inFn bool, loops int) ([]model.Node, []string) {
+	t := g.t
+	vars = append([]string(nil), vars...)
+	var out []model.Node
+	n := rapid.IntRange(1, 4).Draw(t, "stmts")
+	for i := 0; i < n; i++ {
+		k := rapid.IntRange(0, 12).Draw(t, "stmt")
+		if d <= 0 && k >= 3 && k <= 8 {
+			k = k % 3
+		}
+		switch k {
+		case 0, 9:
+			nm := g.name("v")
+			out = append(out, model.Code{S: model.LetS{Name: nm, X: g.intExpr(vars, 2)}})
+			vars = append(vars, nm)
+		case 1, 2:
+			if len(vars) == 0 {
+				nm := g.name("v")
+				out = append(out, model.Code{S: model.LetS{Name: nm, X: g.intExpr(vars, 1)}})
+				vars = append(vars, nm)
+				continue
+			}
+			out = append(out, model.Code{S: model.AssignS{Name: rapid.SampledFrom(vars).Draw(t, "target"), X: g.intExpr(vars, 2)}})
+		case 3, 4, 5: // if chain
+			f := &model.If{Cond: g.cond(vars)}
+			f.Then, _ = g.block(d-1, vars, inLoop, inFn, loops)
+			for j := rapid.IntRange(0, 2).Draw(t, "elseifs"); j > 0; j-- {
+				b, _ := g.block(d-1, vars, inLoop, inFn, loops)
+				f.ElseIfs = append(f.ElseIfs, model.ElseIf{Cond: g.cond(vars), Then: b})
+			}
+			if rapid.Bool().Draw(t, "else") {
+				f.HasElse = true
+				f.Else, _ = g.block(d-1, vars, inLoop, inFn, loops)
+			}
+			out = append(out, model.Code{S: model.IfS{If: f}})
+		case 6, 7: // for
+			if loops >= 2 {
+				out = append(out, model.Code{S: model.ExprS{X: model.Call{Fn: "id", Args: []model.Expr{g.intExpr(vars, 1)}}}})
+				continue
+			}
+			fo := &model.For{Val: g.name("e")}
+			switch rapid.IntRange(0, 3).Draw(t, "iter") {
+			case 0:
+				fo.Iter = model.Var{Name: "two"}
+			case 1:
+				fo.Iter = model.Call{Fn: "id", Args: []model.Expr{model.Var{Name: "two"}}}
+			case 2:
+				fo.Iter = model.Arr{Els: []model.Expr{g.intExpr(vars, 1), g.intExpr(vars, 1)}}
+			default:
+				fo.Iter = model.Var{Name: "arr"}
+			}
+			inner := append(append([]string(nil), vars...), fo.Val)
+			if rapid.Bool().Draw(t, "key") {
+				fo.Key = g.name("k")
+				inner = append(inner, fo.Key)
+			}
+			fo.Body, _ = g.block(d-1, inner, true, inFn, loops+1)
+			out = append(out, model.Code{S: model.ForS{For: fo}})
+		case 8: // a function defined, then called
+			fn := g.name("fn")
+			var params []string
+			var args []model.Expr
+			for j := rapid.IntRange(0, 2).Draw(t, "params"); j > 0; j-- {
+				params = append(params, g.name("p"))
+				args = append(args, g.intExpr(vars, 1))
+			}
+			body, bv := g.block(d-1, params, false, true, 0)
+			body = append(body, model.Code{S: model.ReturnS{X: g.intExpr(bv, 1)}})
+			res := g.name("r")
+			out = append(out, model.Code{S: model.LetS{Name: fn, X: model.FnLit{Params: params, Body: body}}},
+				model.Code{S: model.LetS{Name: res, X: model.Call{Fn: fn, Args: args}}})
+			vars = append(vars, res)
+		case 10: // a guarded jump
+			var j model.Stmt
+			switch {
+			case inLoop && rapid.Bool().Draw(t, "brk"):
+				j = model.BreakS{}
+			case inLoop:
+				j = model.ContinueS{}
+			case inFn:
+				j = model.ReturnS{X: g.intExpr(vars, 1)}
+			default:
+				j = model.ExprS{X: model.Call{Fn: "id", Args: []model.Expr{g.intExpr(vars, 1)}}}
+			}
+			out = append(out, model.Code{S: model.IfS{If: &model.If{Cond: g.cond(vars), Then: []model.Node{model.Code{S: j}}}}})
+		case 11:
+			out = append(out, model.Code{S: model.ExprS{X: model.Call{Fn: "id", Args: []model.Expr{g.intExpr(vars, 1)}}}})
+		default:
+			if rapid.IntRange(0, 2).Draw(t, "text") == 0 {
+				out = append(out, model.Text{S: g.name(" s")})
+			} else {
+				out = append(out, model.Code{S: model.ExprS{X: g.intExpr(vars, 1)}})
+			}
+		}
+	}
+	return out, vars
+}
+
+func (g *sgen) program() []model.Node {
+	body, vars := g.block(3, nil, false, false, 0)
+	for _, v := range vars {
+		body = append(body, model.Text{S: "|"}, model.Emit{X: model.Var{Name: v}})
+	}
+	return body
+}
+
+const rule = "programs: (E) 17 fixed programs (runs of silent statements; statements directly after the closing brace of if / else / else-if / for / for over a call / function / function in a function / helper block / nested blocks; loops with break and continue; hash and array literals; strings containing # and tag delimiters; text with line breaks) x both printers (tag per statement, compact single-tag blocks) x 3 modes x 600 (quick 100) enumerated layout decision vectors each; (E2) 17 source-level programs written with spellings the printer never produces (numbers with a leading or trailing dot in every operand position, operators, member access after a call or an index, back-quoted and escaped strings holding # %> and line breaks, literals over several lines, index assignment, empty blocks, if with return, chains and loops nested up to eight deep inside one tag, contentFor, comment tags and empty tags already present) x 3 modes x 2000 (quick 150) decision vectors; (E3) 10 source-level programs that END INSIDE their last tag (no %>; plush renders them) x 3 modes x 600 (quick 60) vectors; (E4) 6 separators repeated 1.5 to 3 million times in a row between two tokens, rendered in a child process; (R) random programs over all constructs from the shared generator; (R2) random programs of silent statements only (let, assignment, if chains, for over names / calls / literals with guarded break and continue, functions in functions with guarded early returns, bare calls, now and then a text) whose top-level names are emitted at the end. Re-layouts: mode 1: between any two tokens of a tag one of {space, two spaces, tab, newline, CRLF, mixed white space, '# comment' + newline, a line comment containing % and >, two and three line comments in a row, nothing where no two tokens can fuse: next to ( ) [ ] { } , : and between an operator and its operand}; mode 2: + comment tags (empty, quoted, multi-line, code-like) between tags at top level and inside blocks; merging of adjacent silent tags (and of a silent tag into a preceding tag that opens a block); cutting a tag at statement boundaries; ';' between statements; mode 3 (wide): + a separator (none, white space, line comments) between the opener and the first token and between the last token and %>; empty line comments, line comments glued to the token before them, line comments holding unbalanced quotes, back-quotes, non-ASCII bytes, a trailing backslash, tag openers; '{}' and quoted literals glued to their neighbours; a statement boundary spelled as one blank, a tab or any separator instead of a newline (two statements on one line); cuts with comment tags and empty tags between the pieces; all adjacent tags merged; 1 to 3 comment tags in a row (bodies beginning with # = \" ` % <% }, CRLF) and tags holding no statement (<% %>, <%%>, only white space, only line comments) before any tag, before text, inside text and at the very end; the same applied to partial texts. Oracle: the variant renders exactly what the canonical layout renders (same output, or the same error modulo 'line N:'), and the canonical layout agrees with the reference interpreter where that is defined (class */reference-defined). Excluded by construction: no space next to '-' / '.' inside identifiers and numbers, statements beginning with ( [ or { are never joined to a previous tag or line (after an expression they continue it: call, index, helper block), a # line comment never directly follows '<%' and never precedes '%>' on the same line, NUL inside a comment (the lexer's end marker, excluded by C02 as well), top-level return. Non-trivial = the variant text differs from the canonical text; distinct by variant text."
 
 func setup(t *testing.T) *vk.Run {
 	r := vk.Start(t, "C18", rule,
 		"the tokenizer used for re-layout understands only what model.Printer prints; cases it cannot split are counted under excluded",
 		"metamorphic: the canonical layout is the baseline; its agreement with the reference interpreter is checked where the reference is defined")
+	r.Replayer("long", func(raw json.RawMessage) *vk.Fail {
+		var c LongCase
+		if f := vk.Decode(raw, &c); f != nil {
+			return f
+		}
+		return runLong(r, c, "replay")
+	})
 	r.Replayer("layout", func(raw json.RawMessage) *vk.Fail {
 		var c Case
 		if f := vk.Decode(raw, &c); f != nil {
@@ -565,34 +1036,64 @@ func TestProp(t *testing.T) {
 	r.ReplayCommitted()
 
 	fx := fixedPrograms()
-	per := r.Pick(150, 600)
-	total := int64(len(fx)) * 2 * 2 * int64(per)
-	r.Subspace(fmt.Sprintf("%d fixed programs x 2 printers x modes {separators, separators+comments+merge+cut} x %d enumerated decision vectors", len(fx), per), total, true)
+	per := r.Pick(100, 600)
+	total := int64(len(fx)) * 2 * 3 * int64(per)
+	r.Subspace(fmt.Sprintf("%d fixed programs x 2 printers x modes {separators, separators+comments+merge+cut, wide} x %d enumerated decision vectors", len(fx), per), total, true)
 	r.Parallel(total, 0, func(i int64) {
 		k := int(i % int64(per))
 		j := i / int64(per)
-		mode := 1 + int(j%2)
-		compact := (j/2)%2 == 1
-		p := fx[j/4]
+		mode := 1 + int(j%3)
+		compact := (j/3)%2 == 1
+		p := fx[j/6]
 		r.Check(run(r, p, nil, compact, mode, &lcg{s: uint64(i)*7919 + uint64(k)}, fmt.Sprintf("fixed/mode%d", mode)))
 	})
 
 	{
-		per := r.Pick(200, 2000)
-		n := int64(len(sourcePrograms)) * 2 * int64(per)
-		r.Subspace(fmt.Sprintf("%d source-level programs (leading-dot numbers, operators) x 2 modes x %d enumerated decision vectors", len(sourcePrograms), per), n, true)
+		per := r.Pick(150, 2000)
+		n := int64(len(sourcePrograms)) * 3 * int64(per)
+		r.Subspace(fmt.Sprintf("%d source-level programs (leading-dot numbers, operators, chains after calls, strings, blocks in one tag) x 3 modes x %d enumerated decision vectors", len(sourcePrograms), per), n, true)
 		r.Parallel(n, 0, func(i int64) {
-			mode := 1 + int(i%2)
-			p := sourcePrograms[(i/2)%int64(len(sourcePrograms))]
+			mode := 1 + int(i%3)
+			p := sourcePrograms[(i/3)%int64(len(sourcePrograms))]
 			r.Check(runSrc(r, p, mode, &lcg{s: uint64(i)*104729 + 17}, fmt.Sprintf("source/mode%d", mode)))
 		})
 	}
 
-	r.Rapid("programs", r.Pick(5000, 60000), func(t *rapid.T) *vk.Fail {
+	if openFinalTag {
+		// class open-final-tag: every violation of this phase is the defect "the last byte of the input is dropped
+		// when it directly follows a name or a number" (lexer.skipWhitespace), see the report
+		per := r.Pick(60, 600)
+		n := int64(len(openPrograms)) * 3 * int64(per)
+		r.Subspace(fmt.Sprintf("%d source-level programs that end inside their last tag x 3 modes x %d enumerated decision vectors", len(openPrograms), per), n, true)
+		r.Parallel(n, 0, func(i int64) {
+			mode := 1 + int(i%3)
+			p := openPrograms[(i/3)%int64(len(openPrograms))]
+			r.Check(runSrc(r, p, mode, &lcg{s: uint64(i)*15485863 + 5}, fmt.Sprintf("open-final-tag/mode%d", mode)))
+		})
+	}
+
+	if longRuns && r.Shard == 0 {
+		// class long-run-of-line-comments: a violation of this phase with Sep "#\n" is the defect "the lexer recurses once
+		// per line comment" (lexer.nextInsideToken), see the report
+		longs := []LongCase{{" ", 3000000}, {"\n", 3000000}, {"\r\n", 1500000}, {"\t", 3000000}, {"#\n", 3000000}, {" # a comment\r\n", 3000000}}
+		r.Subspace("6 separators, each repeated 1.5 to 3 million times in a row between two tokens (child process)", int64(len(longs)), true)
+		for _, c := range longs {
+			r.Check(runLong(r, c, "long-run"))
+		}
+	}
+	r.Rapid("programs", r.Pick(3000, 40000), func(t *rapid.T) *vk.Fail {
 		g := progs.New(t, progs.Options{MaxDepth: 3})
 		prog := g.Nodes(3, false)
 		compact := rapid.Bool().Draw(t, "compact")
-		mode := rapid.IntRange(1, 2).Draw(t, "mode")
+		mode := rapid.IntRange(1, 3).Draw(t, "mode")
 		return run(r, prog, g.Partials, compact, mode, rapidChooser{t}, fmt.Sprintf("random/mode%d", mode))
+	})
+
+	r.Rapid("silent", r.Pick(3000, 20000), func(t *rapid.T) *vk.Fail {
+		g := &sgen{t: t}
+		prog := g.program()
+		compact := rapid.IntRange(0, 3).Draw(t, "compact") != 0
+		mode := rapid.SampledFrom([]int{1, 2, 2, 3, 3, 3}).Draw(t, "mode")
+		return run(r, prog, nil, compact, mode, rapidChooser{t}, fmt.Sprintf("silent/mode%d", mode))
 	})
 }
